@@ -62,6 +62,20 @@ Definition site_tx (st : site) (n : N) : N :=
 Definition site_rx (st : site) (n : N) : N :=
   match st with TcpDown | UdpDown => n | _ => 0 end.
 
+(* The report sites BY OBSERVATION.  The end-to-end harness records, for every LogTraffic call that reaches the
+   logger, the innermost function of core/server on the call stack (closures under the name of the function
+   they are written in: both copy directions of copyTwoWayEx are "copyTwoWayEx") and the tx / rx arguments.
+   These are all the callers the code has (server.go, copy.go: `grep LogTraffic`); each is one of the four sites,
+   the direction of a relay report being the argument that is not zero.  A call from anywhere else - e.g. from
+   handleTCPRequest itself, which writes a RequestHook's putback bytes to the target WITHOUT reporting them -
+   is a report site the model does not have: the correspondence check fails on it (corr/C15_Corr.v, WR). *)
+Definition site_of_caller (fn : string) (tx rx : N) : option site :=
+  if String.eqb fn "copyTwoWayEx"%string then
+    (if (0 <? tx) && (rx =? 0) then Some TcpUp else if (tx =? 0) && (0 <? rx) then Some TcpDown else None)
+  else if String.eqb fn "udpIOImpl.ReceiveMessage"%string then (if rx =? 0 then Some UdpUp else None)
+  else if String.eqb fn "udpIOImpl.SendMessage"%string then (if tx =? 0 then Some UdpDown else None)
+  else None.
+
 (* what the code after the LogTraffic call does to the QUIC connection *)
 Inductive action := Forward | CloseConn.
 
